@@ -218,7 +218,16 @@ class Expander:
         out = prologue + new_body
         if mode == "assign":
             assert target is not None and ret_expr is not None
-            out.append(ast.copy_location(ast.Assign(target, sub.visit(copy.deepcopy(ret_expr))), at))
+            rv = sub.visit(copy.deepcopy(ret_expr))
+            tg = target[0] if len(target) == 1 else None
+            if isinstance(tg, (ast.Tuple, ast.List)) and isinstance(rv, ast.Tuple) and len(tg.elts) == len(rv.elts) \
+                    and not any(isinstance(e, ast.Starred) for e in tg.elts + rv.elts) and all(isinstance(e, ast.Name) for e in tg.elts) \
+                    and not ({e.id for e in tg.elts} & {n.id for n in ast.walk(rv) if isinstance(n, ast.Name)}):
+                # a, b = (x, y) with x, y not mentioning a or b: two plain assignments
+                for e, v in zip(tg.elts, rv.elts):
+                    out.append(ast.copy_location(ast.Assign([e], v), at))
+            else:
+                out.append(ast.copy_location(ast.Assign(target, rv), at))
         elif mode == "expr" and ret_expr is not None and not isinstance(ret_expr, ast.Constant):
             out.append(ast.copy_location(ast.Expr(sub.visit(copy.deepcopy(ret_expr))), at))
         elif mode == "return":
